@@ -42,3 +42,21 @@ def sloFail (maxHealthy : Int) (h : Hist) : Int :=
     (k == .interrupt && decide (d > maxHealthy))).length
 
 end CM.SpecC20
+
+namespace CM.SpecC20
+/-- rolling sum for ANY timestamp order (the substitute clock may be set back): a counter's window ends at the newest
+    bucket ever presented to it — by its own events, by earlier reads (every stats / stream read presents its time to
+    every counter) or by this read -/
+def newestBucket (w : Int) (times : List Int) : Nat :=
+  ((times.filter (fun t => decide (0 ≤ t))).map (absIdx w)).foldl max 0
+
+def rollingAny (n : Nat) (w : Int) (h : Hist) (reads : List Int) (k : Kind) (now : Int) : Int :=
+  let own := (h.run.filter (·.1 == k)).map (·.2.1)
+  let hiK := newestBucket w (own ++ reads ++ [now])
+  (own.filter fun t => decide (0 ≤ t) && decide (absIdx w t + n > hiK)).length
+
+def fbRollingAny (n : Nat) (w : Int) (h : Hist) (reads : List Int) (k : FbKind) (now : Int) : Int :=
+  let own := (h.fb.filter (·.1 == k)).map (·.2)
+  let hiK := newestBucket w (own ++ reads ++ [now])
+  (own.filter fun t => decide (0 ≤ t) && decide (absIdx w t + n > hiK)).length
+end CM.SpecC20
